@@ -10,7 +10,7 @@ CHECKS = {
     "C01": ("exploration",
             "bounded-exhaustive enumeration of value x operation x placement x layout, real code run on each, re-execution oracle",
             "Every (value, operation, placement, layout) of a stated finite universe is run through the real create path and the rewritten module is re-executed with inline-snapshot inactive; exhaustive within the bounds, so a wrong literal for any enumerated shape is found, not sampled.",
-            "Bounds of the value universe (depth/width, atom list in mc/gen/values.py); Example.run_inline as driver (bound to the real plugin by C19); CPython 3.12, black 26.5.1.",
+            "Bounds of the value universe (depth/width, atom list in mc/gen/values.py); Example.run_inline as driver (bound to the real plugin by C19) plus a real-plugin slice (create session, then a --inline-snapshot=disable session) for values that need an inserted import under five import-block shapes; CPython 3.12, black 26.5.1.",
             "DESIGN.md 5/C01"),
     "C05": ("model_checking",
             "explicit-state BFS over (operation, snapshot argument) states with every (observation script, approved subset) action executed as a real session; lock-step conformance with an independent executable model of the category algebra",
@@ -35,17 +35,17 @@ CHECKS = {
     "C12": ("exploration",
             "exhaustive enumeration of all strings up to length 3-5 over an adversarial alphabet x position x formatter configuration; literal_eval oracle on the written argument",
             "Every string of the bounded language is written by the real code in seven positions and under black / no black / format-command, and the literal found in the file is evaluated independently.",
-            "12-character alphabet incl. quotes, backslash, CR, LF, NUL, U+2028, astral; length bound; boundary-string family; black 26.5.1.",
+            "12-character alphabet incl. quotes, backslash, CR, LF, NUL, U+2028, astral; length bound; boundary-string families (single- and multi-line); two-session histories in which a sibling of the written literal is edited; black 26.5.1.",
             "DESIGN.md 5/C12"),
     "C06": ("exploration",
             "bounded-exhaustive differential enumeration: stored value x compared-value sequences (AST one-edit neighbours) x operation spellings; active-no-flags vs snapshot:=identity vs inactive state",
             "Every program of the bounded family is executed three ways and the per-comparison logs must agree wherever plain Python does not raise; all ordered pairs of operations on one snapshot must raise TypeError.",
-            "Stored-value list and neighbour function in mc/checks/c06.py; bounds only on totally ordered kinds; dirty-equals absent.",
+            "Stored-value list and neighbour function in mc/checks/c06.py; bounds only on totally ordered kinds; dirty-equals absent. Disabled modes (disable flag, CI variables, xdist, xfail at function / class / module level, xfail followed by plain tests) are probed through real sessions with active-session controls.",
             "DESIGN.md 5/C06"),
     "C08": ("model_checking",
             "state graph s0 -F-> s1 -F-> s2 for every initial program and every approved subset F; second transition must be a self-loop; real double pytest sessions for a slice",
             "Histories of identical sessions are executed from every enumerated initial program under all 16 approved sets and the second transition is required to be a self-loop on the file state (plus: nothing left to create/fix/trim after full approval).",
-            "Initial programs of mc/checks/c08.py (tricky reprs, hand layouts, slack, wrong, empty); an internally noted update with an empty diff is allowed (DESIGN.md C08 scope).",
+            "Initial programs of mc/checks/c08.py (tricky reprs, hand layouts, slack, wrong, empty, externals); an internally noted update with an empty diff is allowed (DESIGN.md C08 scope). Real double sessions include a second file and a history with the bytecode cache switched on (sources dated back so that the unchanged tree is deterministic).",
             "DESIGN.md 5/C08"),
     "C04": ("model_checking",
             "exhaustive exploration of the configuration space (flag sources x subsets x modes x all review answer vectors x CI/xdist/tty/xfail environments), every point a real pytest session; conformance with an independent flag-resolution model and differential comparison with CLI-only reference sessions",
@@ -65,7 +65,7 @@ CHECKS = {
     "C14": ("model_checking",
             "exhaustive enumeration of event schedules (all interleavings of <= L evaluations over 2-3 call sites) x site placements x operation tuples, executed in scripted order by the real code; independent per-site fold as reference model",
             "Every interleaving of evaluations over the call sites of a program (up to the length bound) is executed for every placement of the sites (same line, lambdas, nested functions, comprehension, helper, module-level shared, identical text in two files) and the per-site results are compared with a fold computed from the script alone; a changed argument must fail the test.",
-            "values {0,1,2}; L=3 quick / 4 thorough; cross-file sharing and parametrized tests through a real-plugin slice.",
+            "values {0,1,2}; L=3 quick / 4 thorough; cross-file sharing, parametrized tests and a cross-file isolation differential (a file alone vs. together with other files) through real sessions.",
             "DESIGN.md 5/C14"),
     "C16": ("exploration",
             "exhaustive enumeration of small sets/frozensets over mixed and partially ordered elements x all insertion orders x construction methods, each PYTHONHASHSEED x formatter configuration a cold interpreter process; cross-process text / AST equality",
@@ -95,7 +95,7 @@ CHECKS = {
     "C20": ("exploration",
             "bounded-exhaustive sweep: 24 black option combinations x 11 change kinds x argument sizes crossing the wrap limit, clean files and not-clean twins; independent black fixed-point oracle / skeleton oracle",
             "Each case rewrites a file that the harness made black-clean under the configured mode and the result must be a fixed point of an independently constructed black.Mode; the not-clean twin must keep its layout outside the edited arguments.",
-            "black 26.5.1; configuration read from the project directory (cwd); formatter instability is recorded separately.",
+            "black 26.5.1; configuration read from the project directory (cwd); formatter instability is recorded separately; project-level real sessions: a format-command that fails for one of two files, and a nested project whose rootdir has its own pyproject.toml.",
             "DESIGN.md 5/C20"),
     "C13": ("model_checking",
             "explicit-state BFS over session histories (edit payload, add/remove test file, sessions with flag sets, review answer vectors) with state deduplication, every session transition a real pytest session; lock-step conformance with an independent storage model; invariants in every state; exhaustive lookup probes",
